@@ -38,8 +38,16 @@ def build_block(M, b):
     raise core.MachineryError(t)
 
 
-def build_fmt(bib, f):
+def build_fmt(bib, f, past=False):
     fmt = bib.BibtexFormat()
+    if past:
+        # the format object has been used before, with other settings, for a library sharing keys with any other
+        M = bib.model
+        fmt.value_column, fmt.indent, fmt.trailing_comma, fmt.block_separator = 23, " ", not f["tc"], "~"
+        old = bib.Library([M.Entry("a", "k", [M.Field(k, "v") for k in ("a", "b", "title", "author", "year", "f", "g", "x.y", "note", "A", "k")])])
+        bib.writer.write(old, fmt)
+        fmt.value_column = "auto"
+        bib.writer.write(old, fmt)
     fmt.indent = f["indent"]
     fmt.value_column = "auto" if f["vc"] == -1 else f["vc"]
     fmt.block_separator = f["sep"]
@@ -120,6 +128,20 @@ def classify(e, got):
 _G = {}
 
 
+def build_lib(bib, blocks, past=False):
+    """Library(blocks); with past=True the same library is reached through a history: placeholders first, every view
+    read, then each placeholder replaced by its block (a view must describe the library as it is now)."""
+    M = bib.model
+    if not past:
+        return bib.Library(blocks)
+    ph = [M.ImplicitComment("placeholder %d" % i) if i % 2 else M.ParsingFailedBlock(error=Exception("p"), raw="p%d" % i) for i in range(len(blocks))]
+    lib = bib.Library(ph)
+    for i, b in enumerate(blocks):
+        _ = (lib.entries, lib.strings, lib.comments, lib.failed_blocks, lib.entries_dict, lib.strings_dict, lib.preambles)
+        lib.replace(ph[i], b, fail_on_duplicate_key=False)
+    return lib
+
+
 def _chunk(lines):
     bib = _G["bib"]
     res = {"n": 0, "mism": [], "samples": []}
@@ -127,10 +149,11 @@ def _chunk(lines):
         e = core.parse_export(line)
         res["n"] += 1
         M = bib.model
-        lib = bib.Library([build_block(M, b) for b in e["lib"]])
+        past = res["n"] % 2 == 0
+        lib = build_lib(bib, [build_block(M, b) for b in e["lib"]], past)
         if len(lib.failed_blocks) != sum(1 for b in e["lib"] if b["t"] == "failed"):
             raise core.MachineryError("C06 library construction produced a duplicate wrapper")
-        fmt = build_fmt(bib, e["fmt"])
+        fmt = build_fmt(bib, e["fmt"], past)
         before = fmt_state(fmt)
         try:
             got = bib.writer.write(lib, fmt)
